@@ -21,7 +21,7 @@ env = dict(os.environ, GOFLAGS="-mod=mod", GOPROXY="off")
 def sh(cmd, **kw):
     return subprocess.run(cmd, shell=True, cwd=d, env=env, capture_output=True, text=True, **kw)
 patch = os.path.join(seed, "patch.diff")
-demo = [f for f in os.listdir(seed) if f.endswith("_test.go")][0]
+demo = [f for f in os.listdir(seed) if f.endswith("_test.go") or f.endswith("_test.go.txt")][0]
 pkgdir = meta.get("demo_package_dir", ".") or "."
 pkgdir = pkgdir.replace(wt, "").strip("/") or "."
 pkgdir = pkgdir.split()[0].rstrip("/") if pkgdir.split() else "."
